@@ -382,7 +382,9 @@ class Budget:
 
     def __init__(self, seconds):
         self.t0 = time.time()
-        cap = float(os.environ.get("VERIF_BUDGET_S", "0") or 0)   # optional cap for time-boxed sweeps
+        # generation stops after min(requested, cap) seconds per shard; default cap 900 s keeps a thorough tier near
+        # 15-20 min; VERIF_BUDGET_S=2400 (or more) deepens it, a smaller value time-boxes a sweep
+        cap = float(os.environ.get("VERIF_BUDGET_S", "900") or 900)
         self.seconds = min(seconds, cap) if cap > 0 else seconds
 
     def left(self):
